@@ -342,7 +342,8 @@ PROPS["C16"] = {
              "four Generate* functions, with '', .json or .yaml appended; 1..3 directories, the last one existing / missing / nested-missing, "
              "in one case of three also listed first (same or another spelling) with the other directories in between; "
              "pre-existing: the same devices in a lower directory, a file already at the target, the same stem with the other extension, an "
-             "unrelated Spec, plus bystander files outside the Spec directories. Oracle: (1) the generated name is a single path component; "
+             "unrelated Spec, a named pipe / socket / symbolic link to a directory / dangling link under a name the scan ignores and that sorts "
+             "before or after everything generated, plus bystander files outside the Spec directories. Oracle: (1) the generated name is a single path component; "
              "(2) snapshot of the whole sandbox tree (type, size, SHA-256) around WriteSpec - on success only the target in the last directory "
              "was created or replaced (plus directories on the way to a missing last directory), JSON iff the name ends in .json, and it "
              "reads back equal; on failure (only NUL / over-long names may fail) nothing but created directories and a *.tmp file changed; "
